@@ -495,7 +495,7 @@ theorem parseParts_OInv (specs : List Spec) (pa : Parser) (s : Proj) (pa' : Pars
 
 theorem parse_OInv (pa : Parser) (specs : List Spec) (pa' : Parser) (s : Proj)
     (hm : pa.parse specs = (pa', .ok s)) : OInv s ∧ s.unitIdx = none :=
-  parseParts_OInv specs pa newProjection pa' s newProjection_FInv newProjection_OInv hm
+  parseParts_OInv specs pa newProjection pa' s newProjection_FInv newProjection_OInv (parse_ok _ _ _ _ hm)
 
 theorem parseWithUnit_OInv (pa : Parser) (specs : List Spec) (pa' : Parser) (s : Proj)
     (hm : pa.parseWithUnit specs = (pa', .ok s)) : OInv s := by
@@ -503,7 +503,7 @@ theorem parseWithUnit_OInv (pa : Parser) (specs : List Spec) (pa' : Parser) (s :
   split at hm
   · rename_i p1 s1 heq
     obtain ⟨ho, hu⟩ := parse_OInv pa specs p1 s1 heq
-    obtain ⟨hf, _⟩ := parseParts_FInv specs pa newProjection p1 s1 newProjection_FInv heq
+    obtain ⟨hf, _⟩ := parseParts_FInv specs pa newProjection p1 s1 newProjection_FInv (parse_ok _ _ _ _ heq)
     simp only [Prod.mk.injEq, Except.ok.injEq] at hm
     obtain ⟨_, rfl⟩ := hm
     have hgi : ∀ i, groupIdx (s1.top ++ [.leaf (mkField dotUnit s1.nFields .first)]) i ↔ groupIdx s1.top i := by
